@@ -1,0 +1,13 @@
+//go:build verif
+
+package routing
+
+// VerifYieldHook, when set, is called at the marked points of the routers' update and close paths, so that a
+// verification harness can pause one goroutine there while others run. Only compiled with the "verif" build tag.
+var VerifYieldHook func(point string)
+
+func verifYield(point string) {
+	if h := VerifYieldHook; h != nil {
+		h(point)
+	}
+}
